@@ -307,8 +307,7 @@ TTLIsProfilesP(s, o) == s.fk # "pass" => o.ttl = "profile"
 NoUpstreamDataWhenBlockedP(s, o) == s.fk \in {"blocked", "rw_ip4", "rw_ip6", "rw_rcode"} => ~o.upsdata
 
 -----------------------------------------------------------------------------
-(* Exhaustive enumeration: one state per vector.  The products take a dummy
-   parameter so that TLC does not pre-compute all of them as constants. *)
+(* Exhaustive enumeration: one state per vector. *)
 VARIABLES v, sv
 vars == <<v, sv>>
 
@@ -323,30 +322,35 @@ Vec(c, r1, r2, s, sf, rc, rr, pen, den) ==
 DummyV == Vec("none", "none", "none", "none", [k \in 1..5 |-> "off"], "none", "none", TRUE, TRUE)
 DummyS == [fk |-> "pass", mode |-> "null", qt |-> "A", ups |-> "addr"]
 
-RulesProduct(u) ==
-    {Vec(c, r1, r2, s, sf, rc, rr, TRUE, TRUE) :
-        c \in RuleClasses, r1 \in RuleClasses, r2 \in RuleClasses, s \in SvcClasses, sf \in ReducedSafety,
-        rc \in RespClasses, rr \in RespClasses}
-    \cup
-    {Vec(c, r1, "none", s, sf, rc, "none", pen, den) :
-        c \in RuleClasses, r1 \in {"none", "block", "allow"}, s \in SvcClasses,
-        sf \in {[k \in 1..5 |-> "off"], [k \in 1..5 |-> "match"]},
-        rc \in RespClasses, pen \in BOOLEAN, den \in BOOLEAN}
-SafetyProduct(u) ==
-    {Vec(c, r1, r2, s, sf, rc, "none", TRUE, TRUE) :
-        c \in {"none", "allow", "block", "rwip"}, r1 \in {"none", "allow", "hosts"}, r2 \in {"none", "allow"},
-        s \in SvcClasses, sf \in AllSafety, rc \in {"none", "block"}}
-FullProduct(u) ==
-    {Vec(c, r1, r2, s, sf, rc, rr, TRUE, TRUE) :
-        c \in RuleClasses, r1 \in RuleClasses, r2 \in RuleClasses, s \in SvcClasses, sf \in AllSafety,
-        rc \in RespClasses, rr \in {"none", "block"}}
-ShapeProduct(u) == [fk : FKinds, mode : Modes, qt : QTypes, ups : UpsCls]
+ShapeProduct == [fk : FKinds, mode : Modes, qt : QTypes, ups : UpsCls]
+Off5   == [k \in 1..5 |-> "off"]
+Match5 == [k \in 1..5 |-> "match"]
+
+\* rules: rule slots x response x reduced safety (everything enabled), plus the
+\* switches against a smaller rule product
+InitRules ==
+    \/ \E c \in RuleClasses, r1 \in RuleClasses, r2 \in RuleClasses, s \in SvcClasses, sf \in ReducedSafety,
+          rc \in RespClasses, rr \in RespClasses : v = Vec(c, r1, r2, s, sf, rc, rr, TRUE, TRUE)
+    \/ \E c \in RuleClasses, r1 \in {"none", "block", "allow"}, s \in SvcClasses, sf \in {Off5, Match5},
+          rc \in RespClasses, pen \in BOOLEAN, den \in BOOLEAN : v = Vec(c, r1, "none", s, sf, rc, "none", pen, den)
+InitSmall ==
+    \E c \in RuleClasses, r1 \in RuleClasses, s \in SvcClasses, sf \in {Off5, Match5},
+       rc \in RespClasses, pen \in BOOLEAN, den \in BOOLEAN : v = Vec(c, r1, "none", s, sf, rc, "none", pen, den)
+\* safety: all 3^5 safety vectors against the rule contexts that reach them
+InitSafety ==
+    \E c \in {"none", "allow", "block", "rwip"}, r1 \in {"none", "allow", "hosts"}, r2 \in {"none", "allow"},
+       s \in SvcClasses, sf \in AllSafety, rc \in {"none", "block"} : v = Vec(c, r1, r2, s, sf, rc, "none", TRUE, TRUE)
+\* full: the complete product of rule slots and safety vectors (thorough tier)
+InitFull ==
+    \E c \in RuleClasses, r1 \in RuleClasses, r2 \in RuleClasses, s \in SvcClasses, sf \in AllSafety,
+       rc \in RespClasses, rr \in {"none", "block"} : v = Vec(c, r1, r2, s, sf, rc, rr, TRUE, TRUE)
 
 Init ==
-    CASE Part = "rules"  -> v \in RulesProduct(0) /\ sv = DummyS
-      [] Part = "safety" -> v \in SafetyProduct(0) /\ sv = DummyS
-      [] Part = "full"   -> v \in FullProduct(0) /\ sv = DummyS
-      [] Part = "shape"  -> v = DummyV /\ sv \in ShapeProduct(0)
+    CASE Part = "rules"  -> InitRules /\ sv = DummyS
+      [] Part = "small"  -> InitSmall /\ sv = DummyS
+      [] Part = "safety" -> InitSafety /\ sv = DummyS
+      [] Part = "full"   -> InitFull /\ sv = DummyS
+      [] Part = "shape"  -> v = DummyV /\ sv \in ShapeProduct
       [] Part = "trace"  -> v = DummyV /\ sv = DummyS
 Next == UNCHANGED vars
 Spec == Init /\ [][Next]_vars
